@@ -325,8 +325,30 @@ def corpus():
     ]
 
 
+Z_FIRST = -719162          # date(1, 1, 1)
+Z_END = 2932897            # one past date(9999, 12, 31)
+
+
+def _calendar_cases(rng, tier):
+    """Sweeps of the calendar model against `datetime.date`: the whole range of the datetime module in
+    the thorough tier, both ends plus random windows in the quick tier."""
+    if tier == "quick":
+        out = [{"kind": "calendar", "from": Z_FIRST, "n": 3000}, {"kind": "calendar", "from": Z_END - 3000, "n": 3000},
+               {"kind": "calendar", "from": -1500, "n": 3000}]
+        for _ in range(4):
+            out.append({"kind": "calendar", "from": rng.randint(Z_FIRST, Z_END - 20000), "n": 20000})
+        return out
+    out = []
+    z = Z_FIRST
+    while z < Z_END:
+        n = min(100000, Z_END - z)
+        out.append({"kind": "calendar", "from": z, "n": n})
+        z += n
+    return out
+
+
 def generate(rng, n, tier):
-    return [_gen_case(rng) for _ in range(n)]
+    return _calendar_cases(rng, tier) + [_gen_case(rng) for _ in range(n)]
 
 
 # ------------------------------------------------------------------ the fake server (shared description)
@@ -468,9 +490,22 @@ def _obs_doc(doc):
     return {"fields": fields, "zones": sorted(set(str(e[1]) for e in extra)), "us": sorted(set(e[2] for e in extra))}
 
 
+def _run_calendar(case):
+    from datetime import date
+    h = 0
+    z0 = case["from"]
+    for z in range(z0, z0 + case["n"]):
+        d = date.fromordinal(z + 719163)
+        h = (h * 1000003 + ((d.year * 100 + d.month) * 100 + d.day) * 7 + d.weekday()) % 2305843009213693951
+    d0 = date.fromordinal(z0 + 719163)
+    return {"hash": h, "first": [d0.year, d0.month, d0.day]}
+
+
 def run_impl(case):
     if case["kind"] == "dates":
         return _run_dates(case)
+    if case["kind"] == "calendar":
+        return _run_calendar(case)
     # the fake server matches URLs up to the order of the query parameters (as a real one does)
     srv = {_ckey(u): p for u, p in _server(case).items()}
     first = _first_url(case)
@@ -609,6 +644,8 @@ def _doc_zones(case):
 
 
 def model_request(case):
+    if case["kind"] == "calendar":
+        return {"op": "calendar", "from": case["from"], "n": case["n"]}
     if case["kind"] == "dates":
         items = []
         for it in case["items"]:
@@ -654,6 +691,13 @@ def _ckey(u):
 
 def compare(case, obs, model):
     out = []
+    if case["kind"] == "calendar":
+        if model["bad"] != 0:
+            out.append(f"daysFromCivil(civilFromDays z) != z on {model['bad']} days of the window")
+        if model["first"] != obs["first"] or model["hash"] != obs["hash"]:
+            out.append(f"calendar window from {case['from']} ({case['n']} days): datetime.date and the model differ "
+                       f"(first day impl={obs['first']} model={model['first']})")
+        return out
     if case["kind"] == "dates":
         for i, (a, m) in enumerate(zip(obs["results"], model["results"])):
             if a["err"]:
@@ -807,6 +851,8 @@ def _walk(case):
 
 def oracle(case, obs):
     fails = []
+    if case["kind"] == "calendar":
+        return fails      # the calendar sweep ties the model to `datetime.date` (trusted); nothing of /repo runs
     if case["kind"] == "dates":
         for i, (it, r) in enumerate(zip(case["items"], obs["results"])):
             if r["err"]:
@@ -918,6 +964,8 @@ def _near_transition(zone, t):
 
 
 def nontrivial(case, obs):
+    if case["kind"] == "calendar":
+        return True
     if case["kind"] == "dates":
         for it in case["items"]:
             if "dt" in it and (_near_transition(it["zone"], it["dt"]["t"]) or
@@ -937,6 +985,8 @@ def nontrivial(case, obs):
 
 def features(case, obs):
     out = ["kind:" + case["kind"]]
+    if case["kind"] == "calendar":
+        return out + [f"calendar-days:{case['n']}"]
     if case["kind"] == "dates":
         for it, r in zip(case["items"], obs["results"]):
             out.append("date:" + ("roundtrip" if "dt" in it else ("parsed" if r["r"] is not None else "rejected")))
@@ -982,6 +1032,8 @@ def features(case, obs):
 
 def shrink(case, kind):
     """Drop pages / items while the failure kind persists."""
+    if case["kind"] == "calendar":
+        return case
     if case["kind"] == "dates":
         best = case
         for i in range(len(case["items"])):
